@@ -130,6 +130,8 @@ func TestElementRoundTrip(t *testing.T) {
 			{KeyTransport: RSAOAEP11, Digest: DigestSHA256},
 			{KeyTransport: RSAOAEPMGF1P, XencPrefix: "-", DsPrefix: "dsig", Extras: true, EmbedCert: true},
 			{KeyTransport: RSA15, XencPrefix: "e", Extras: true, KeyID: "_k1", KeyIDRef: true, ID: "_d1"},
+			{KeyTransport: RSAOAEP11, Digest: DigestSHA256, MGF: MGF1SHA512, XencPrefix: "-", DsPrefix: "-", Extras: true, EmbedCert: true, KeyID: "_k1", KeyIDRef: true, OAEPParams: []byte{}},
+			{KeyTransport: RSAOAEPMGF1P, Digest: DigestSHA1, DsPrefix: "-", EmbedCert: true},
 		} {
 			for _, sib := range []bool{false, true} {
 				o := tr
